@@ -60,11 +60,19 @@ def crossratio(
         and isinstance(c, LineTensor)
         and isinstance(d, LineTensor)
     ):
-        if not np.all(is_concurrent(a, b, c, d)):
-            raise NotConcurrent("The lines are not concurrent: " + str([a, b, c, d]))
+        if a.dim == 2:
+            if not np.all(is_concurrent(a, b, c, d)):
+                raise NotConcurrent("The lines are not concurrent: " + str([a, b, c, d]))
+            # concurrent lines are collinear points of the dual plane with the same cross ratio
+        else:
+            from_point = a.meet(b)
+            if not (np.all(c.contains(from_point)) and np.all(d.contains(from_point))):
+                raise NotConcurrent("The lines are not concurrent: " + str([a, b, c, d]))
 
-        from_point = a.meet(b)
-        a, b, c, d = a.base_point, b.base_point, c.base_point, d.base_point
+            # use the points of intersection with a plane that does not contain the common point
+            e = PlaneCollection.from_array(np.conj(from_point.array))
+            a, b, c, d = e.meet(a), e.meet(b), e.meet(c), e.meet(d)
+            from_point = None
 
     elif (
         isinstance(a, PlaneTensor)
@@ -93,10 +101,11 @@ def crossratio(
         raise TypeError(f"Unsupported combination of types: a: {type(a)}, b: {type(b)}, c: {type(c)}, d: {type(d)}")
 
     if a.dim > 2 or (from_point is None and a.dim == 2):
-        # is_collinear only tests whether the points are coplanar in dimensions higher than two
-        l = join(a, b)
-        if not (np.all(l.contains(c)) and np.all(l.contains(d))):
-            raise NotCollinear("The points are not collinear: " + str([a, b, c, d]))
+        if isinstance(a, PointTensor):
+            # is_collinear only tests whether the points are coplanar in dimensions higher than two
+            l = join(a, b)
+            if not (np.all(l.contains(c)) and np.all(l.contains(d))):
+                raise NotCollinear("The points are not collinear: " + str([a, b, c, d]))
 
         basis = np.stack(np.broadcast_arrays(a.array, b.array), axis=-2)
         a = matvec(basis, a.array)
